@@ -208,8 +208,12 @@ def mutants(prog, rng):
             b = n[2]
             other = "parallel_block" if b[0] == "sequential_block" else "sequential_block"
             yield "block-kind", put(prog, path, ("loop", c, (other,) + b[1:]))
+            if b[0] == "sequential_block":
+                # the keyword changed: repeat N times  ->  prepare / run / measure with N shots (same count, same body)
+                yield "loop-becomes-subcircuit", put(prog, path, ("subcircuit_block", c) + b[1:])
         elif k == "subcircuit_block":
             c = n[1]
+            yield "subcircuit-becomes-loop", put(prog, path, ("loop", 1 if c == "" else c, ("sequential_block",) + n[2:]))
             yield "subcircuit-count", put(prog, path, (k, 2 if c in ("", 1) else (c + 1 if isinstance(c, int) else 7)) + n[2:])
             if c != 0:
                 yield "subcircuit-count-zero", put(prog, path, (k, 0) + n[2:])
